@@ -51,7 +51,7 @@ func main() {
 		if s.Cfg != nil {
 			cfg = *s.Cfg
 		}
-		mw, err := mworld.New(cfg, bw)
+		mw, err := mworld.NewWith(cfg, s.Evm, bw)
 		if err != nil {
 			fmt.Fprintln(os.Stderr, "setup:", err)
 			os.Exit(2)
